@@ -133,7 +133,7 @@ def _jb(x):
     return x
 
 
-def network(rng, size=None, genes=None, want="any", finite=False, allow_forced=True, gene_ids=None):
+def network(rng, size=None, genes=None, want="any", finite=False, allow_forced=True, gene_ids=None, p_cycle=0.6):
     """Random network recipe.  want in {"any","feasible-ish"} only biases construction;
     the exact oracle labels the result afterwards."""
     size = size or rng.randint(1, 4)
@@ -218,7 +218,7 @@ def network(rng, size=None, genes=None, want="any", finite=False, allow_forced=T
             st[m_] = rng.choice(COEFS) * (-1 if i < k // 2 or (i == 0) else 1)
         R(st, *anyb())
     # internal cycle
-    if rng.random() < 0.6 and len(ints) >= 3:
+    if rng.random() < p_cycle and len(ints) >= 3:
         L = rng.randint(2, min(4, len(ints)))
         cyc = rng.sample(ints, L)
         for i in range(L):
